@@ -265,6 +265,8 @@ def _run(ix, R):
         contrib_pipeline(ix, R, SM + '::SimpleForwardModel.' + nm, nm == 'model_full_contrib')
     # ---- 6. unique names
     unique_names(ix, R, base)
+    with R.guard('8.store', 'ARG', 'taurex/util/output.py::store_contributions', 'stored components'):
+        stored_components(ix, R)
     # ---- 7. every source that is added is kept
     site = 'taurex/model/model.py::ForwardModel.add_contribution'
     with R.guard('7.add', 'EFF', site, 'add_contribution'):
@@ -699,6 +701,47 @@ def contrib_pipeline(ix, R, site, each):
         if ra is None or ra.head != 'tuple' or len(ra.args) != 2 or not fl.tab.equal(ra.args[0], G) or r.guards:
             why.append('returns %s' % fmt(fl, r.value)[:80])
         R.check('5.pipe', 'ARG', site, stmt, not why, key='; '.join(why), detail='; '.join(why), loc=f.loc(pi.node))
+
+
+def stored_components(ix, R):
+    """store_contributions: the dictionary stored for a contribution / a component is generated from THAT entry's own
+    (flux, transmittance, extras) on the shared native grid - not from a value left over from the enclosing loop."""
+    site = 'taurex/util/output.py::store_contributions'
+    f = ix.func(site)
+    fl = mkflow(ix, site)
+    gs = [e for e in calls(fl, 'generate_spectrum_output') if e.loops]
+    stmt = ('each stored contribution / component dictionary is generated from its own (flux, transmittance, extras) '
+            'of model_contrib() / model_full_contrib() on the common native grid')
+    if len(gs) < 2:
+        R.error('8.store', 'ARG', site, stmt, '%d generate_spectrum_output calls inside the loops' % len(gs), loc=f.loc())
+        return
+    why = []
+    for e in gs:
+        lp = e.loops[-1]
+        item = fl.tab.atom('elem', (lp.iter_rf[0], lp.index))
+        # items() loops: element = (key, value); the value is the (flux, tau, extras) triple
+        a = atom_of(fl, e.args[0]) if e.args else None
+        if a is None or a.head != 'tuple' or len(a.args) != 4:
+            R.error('8.store', 'ARG', site, stmt, 'generate_spectrum_output(%s)' % (fmt(fl, e.args[0])[:120] if e.args else ''),
+                    loc=f.loc(e.node))
+            return
+        got = a.args[1:]
+        cands = []
+        if lp.kind == 'items' or 'items' in unparse(lp.iter_ast):
+            val = fl.tab.atom('idx', (item, fl.tab.const(1)))
+            cands.append([fl.tab.atom('idx', (val, fl.tab.const(k))) for k in range(3)])
+        cands.append([fl.tab.atom('idx', (item, fl.tab.const(k))) for k in (1, 2, 3)])
+        cands.append([fl.tab.atom('idx', (item, fl.tab.const(k))) for k in (0, 1, 2)])
+        if not any(all(fl.tab.equal(x, y) for x, y in zip(got, c)) for c in cands):
+            slots = ['flux', 'transmittance', 'extras']
+            bad = []
+            for c in cands:
+                miss = [slots[k] for k, (x, y) in enumerate(zip(got, c)) if not fl.tab.equal(x, y)]
+                if len(miss) < len(bad) or not bad:
+                    bad = miss
+            why.append('the %s handed to generate_spectrum_output in the loop over %s is %s, not that of the entry being stored' % (
+                ' / '.join(bad), unparse(lp.iter_ast)[:50], [fmt(fl, x)[:60] for x in got]))
+    R.check('8.store', 'ARG', site, stmt, not why, key='; '.join(w[:100] for w in why), detail='; '.join(why), loc=f.loc())
 
 
 def unique_names(ix, R, base):
